@@ -3,7 +3,8 @@ The happens-before rule "an input's failure is counted before the end of the inp
 the event log of a REAL run of `batchers.OpenFilesToChan` (hooks `verifTrace`, build tag `verif`):
 
 * `se`  (`src.err`)  – logged inside `incErrors`, by the goroutine that counts;
-* `rl`  (`sema.rel`) – first statement of the reader goroutine's deferred block, before `<-sema; wg.Done()`;
+* `rl`  (`sema.rel`) – first statement of the reader goroutine's deferred block, before
+  `<-sema; out.stopFileReading(name); wg.Done()`;
 * `cw`  (`c.wait`)   – logged by the spawner right after `wg.Wait()` returned;
 * `cc`  (`c.close`)  – logged right before `close(s.c)`.
 
